@@ -6,8 +6,10 @@ and raise OutOfDomain when the program leaves the region where Python and C++ se
 construction (DESIGN.md C01).  The canonical printer `show` produces the same text as the C++ `show`.
 """
 import ast
+import copy
 import enum
 import struct
+import types
 
 INT_MIN, INT_MAX = -2 ** 31, 2 ** 31 - 1
 
@@ -85,7 +87,15 @@ def g_index(v, i):
 	return v[i]
 
 
+BY_VALUE_ARGS = [False]
+
+
 def g_call(fn, *args, **kwargs):
+	if BY_VALUE_ARGS[0] and isinstance(fn, (types.FunctionType, types.MethodType)) and getattr(fn, '__module__', '') == '__vf_main__':
+		# third reference run: user functions and methods receive copies of containers and objects (what the C++ by-value parameters do);
+		# a program whose results differ relies on aliasing and is outside the subset
+		args = tuple(copy.deepcopy(a) if isinstance(a, (list, dict)) or hasattr(type(a), '__vf_fields__') else a for a in args)
+		kwargs = {k: (copy.deepcopy(a) if isinstance(a, (list, dict)) or hasattr(type(a), '__vf_fields__') else a) for k, a in kwargs.items()}
 	name = getattr(fn, '__name__', '')
 	self_ = getattr(fn, '__self__', None)
 	if name == 'pop' and isinstance(self_, list):
@@ -230,6 +240,14 @@ def run(source: str, calls: list[tuple[str, str]], fields: dict[str, list[str]],
 			SORTED_DICTS[0] = False
 		if again != out:
 			return {'lines': out['lines'], 'out_of_domain': 'relies-on-dict-order'}
+	if guarded and out['out_of_domain'] is None and ('list[' in source or 'dict[' in source or 'class ' in source):
+		BY_VALUE_ARGS[0] = True
+		try:
+			again = run_once(source, calls, fields, guarded, step_limit)
+		finally:
+			BY_VALUE_ARGS[0] = False
+		if again != out:
+			return {'lines': out['lines'], 'out_of_domain': 'relies-on-aliasing-of-arguments'}
 	return out
 
 
